@@ -797,7 +797,7 @@ def run(tier, seed):
     sweep_vm = ["X\t" + t.encode().hex() for t in sweep_texts if 0 < len(t.encode()) <= 30][:10]
 
     # 3. vm_compute slice of the oracle requests
-    sl = rng.sample(pool, min(140, len(pool)))
+    sl = rng.sample(pool, min(110, len(pool)))
     sl += sweep_vm + ["E\t%s\t4" % "a = é".encode().hex(), "E\t%s\t9" % "a = ; é\n".encode().hex(), "W\t9\t0,0,3,8,8,15,19,19", "W\t9\t0,8,19,16,19,19"]
     vm = common.vm_compute_slice(PROP, VM_PREAMBLE, [vm_expr(None, l) for l in sl])
     orc_sl = common.run_tool(orc, sl, shards=1)
